@@ -24,6 +24,9 @@ CLAIMED = {
     'C09': ('wakeup invariants and no_deadlock over the Conc transition system (every reachable state with an operation in flight has an enabled non-invocation step); real runs under the '
             'deterministic scheduler with deadlock ("unfinished, none runnable") and step-bound detection; every observed signal/broadcast checked against the model step',
             'Lean 4 proof + schedule exploration with trace validation against the model', '7 C09'),
+    'C10': ('discipline theorem over a happens-before model (every plain location guarded by a mutex / published by release-acquire / thread-local / immutable => no data race), skiplist publication '
+            'protocol safe for the memory orders found in the source, and obligations over tables regenerated from the CURRENT source on every run (every access to mutex-protected state with the '
+            'lock state at the access; every atomic operation with its order) re-proved by kernel evaluation; ThreadSanitizer workload as search', 'Lean 4 proof + translators regenerating lock/atomics tables from source + TSan search', '7 C10'),
     'C12': ('kill/close durability theorems applied to the conforming prefix before the fault; fault-injection runs of the real code (k-th call fails; ENOSPC/EIO/EMFILE/ENOENT; one-shot/persistent; '
             'partial writes) through the same crash oracle: no crash or hang, reads correct, every acknowledged write present after reopen', 'Lean 4 proof + fault-injection trace validation', '7 C12'),
     'C13': ('keep-rule/live-set model: at every quiescent point the directory must contain exactly the live tables, the current log(s), one MANIFEST; every live file number below next_file_number',
